@@ -214,6 +214,104 @@ func vC06AbsOpt(o *dns.OPT) string {
 	return fmt.Sprintf("mk_opt %d %d %s %d [%s]", o.Version(), o.UDPSize(), vC06B(o.Do()), o.Hdr.Ttl&0x7FFF, strings.Join(opts, "; "))
 }
 
+// vC06Octets renders octets as a Coq list of N.
+func vC06Octets(b []byte) string {
+	if len(b) == 0 {
+		return "[]"
+	}
+	var sb strings.Builder
+	sb.WriteString("[")
+	for i, x := range b {
+		if i > 0 {
+			sb.WriteString(";")
+		}
+		sb.WriteString(strconv.Itoa(int(x)))
+	}
+	sb.WriteString("]%N")
+	return sb.String()
+}
+
+// vC06OptTail returns the octets of the reply's OPT when it is the reply's last record
+// (root owner, so the record is exactly its fixed part plus its options): the raw bytes the
+// model's encoder (WireOpt.enc_opt) and the translated internal/wire builders must reproduce.
+func vC06OptTail(obs *dns.Msg, reply []byte) []byte {
+	if obs == nil || len(obs.Extra) == 0 {
+		return nil
+	}
+	o, ok := obs.Extra[len(obs.Extra)-1].(*dns.OPT)
+	if !ok {
+		return nil
+	}
+	n := 11
+	for _, e := range o.Option {
+		n += 4 + len(vC06OptData(e))
+	}
+	if n > len(reply) {
+		return nil
+	}
+	return reply[len(reply)-n:]
+}
+
+// vC06Step is one (packet, scripted downstream) pair in replayable form: what corpus/C06 holds
+// and what every case's desc carries (with the step before it — jobs and writer slots are reused).
+type vC06Step struct {
+	Name     string `json:"name,omitempty"`
+	Tr       int    `json:"tr"`
+	Cfg      int    `json:"cfg"`
+	Client   int    `json:"client"`
+	Qid      uint16 `json:"qid"`
+	Strict   bool   `json:"strict_try,omitempty"`
+	QueryHex string `json:"query_hex"`
+	Write    bool   `json:"write"`
+	Rcode    int    `json:"rcode"`
+	AA       bool   `json:"aa"`
+	AD       bool   `json:"ad"`
+	RA       bool   `json:"ra"`
+	TC       bool   `json:"tc"`
+	An       []string `json:"an"`
+	Ns       []string `json:"ns"`
+	Ex       []string `json:"ex"`
+	Fill     int      `json:"fill"`
+	OptMode  int      `json:"opt_mode"`
+	OptKind  []int    `json:"opt_kind"`
+	OptSeed  int64    `json:"opt_seed"`
+	OwnSize  uint16   `json:"own_size"`
+	OwnDo    bool     `json:"own_do"`
+	OptPos   int      `json:"opt_pos"`
+	Wire     bool     `json:"wire"`
+	WireEDE  int      `json:"wire_ede"`
+}
+
+func vC06MkStep(tr, ci, client int, qid uint16, strictTry bool, raw []byte, sc *vC06Script) *vC06Step {
+	return &vC06Step{Tr: tr, Cfg: ci, Client: client, Qid: qid, Strict: strictTry, QueryHex: hex.EncodeToString(raw),
+		Write: sc.write, Rcode: sc.rcode, AA: sc.aa, AD: sc.ad, RA: sc.ra, TC: sc.tc, An: sc.an, Ns: sc.ns, Ex: sc.ex, Fill: sc.fill,
+		OptMode: sc.optMode, OptKind: sc.optKind, OptSeed: sc.optSeed, OwnSize: sc.ownSize, OwnDo: sc.ownDo, OptPos: sc.optPos,
+		Wire: sc.wire, WireEDE: sc.wireEDE}
+}
+
+func (st *vC06Step) script() *vC06Script {
+	return &vC06Script{write: st.Write, rcode: st.Rcode, aa: st.AA, ad: st.AD, ra: st.RA, tc: st.TC, an: st.An, ns: st.Ns, ex: st.Ex,
+		fill: st.Fill, optMode: st.OptMode, optKind: st.OptKind, optSeed: st.OptSeed, ownSize: st.OwnSize, ownDo: st.OwnDo,
+		optPos: st.OptPos, wire: st.Wire, wireEDE: st.WireEDE}
+}
+
+// vC06CorpusFile reads $VERIF_CORPUS/<name>: fixed steps replayed, in order, before the generated ones.
+func vC06CorpusFile(name string) []*vC06Step {
+	dir := os.Getenv("VERIF_CORPUS")
+	if dir == "" {
+		return nil
+	}
+	b, err := os.ReadFile(dir + "/" + name)
+	if err != nil {
+		return nil
+	}
+	var steps []*vC06Step
+	if json.Unmarshal(b, &steps) != nil {
+		return nil
+	}
+	return steps
+}
+
 func vC06NameLen(s string) int {
 	buf := make([]byte, 300)
 	off, err := dns.PackDomainName(s, buf, 0, nil, false)
@@ -1128,13 +1226,37 @@ func TestVerifC06Server(t *testing.T) {
 	env := vC06NewEnv()
 	clients := []netip.AddrPort{netip.MustParseAddrPort("192.0.2.7:5353"), netip.MustParseAddrPort("[2001:db8::7]:5353"), netip.MustParseAddrPort("203.0.113.9:4000")}
 
-	for c := 0; c < n; c++ {
-		gq := vC06GenQuery(r)
-		sc := vC06GenScript(r)
-		tr := []int{vC06UDP, vC06UDP, vC06UDP, vC06UDP, vC06TCP, vC06TCP, vC06TCP, vC06DOH, vC06DOH, vC06DOQ}[r.Intn(10)]
-		ci := r.Intn(4)
-		client := clients[[]int{0, 0, 0, 1, 2}[r.Intn(5)]]
-		qid := uint16(r.Intn(65536))
+	corpus := vC06CorpusFile("steps_server.json")
+	var prev *vC06Step
+	for c := 0; c < len(corpus)+n; c++ {
+		var gq *vC06Q
+		var sc *vC06Script
+		var tr, ci, cli int
+		var qid uint16
+		tune, tuneOff := false, 0
+		fromCorpus := c < len(corpus)
+		if fromCorpus {
+			st := corpus[c]
+			b, err := hex.DecodeString(st.QueryHex)
+			if err != nil || st.Tr < 0 || st.Tr > vC06DOQ || st.Cfg < 0 || st.Cfg > 3 || st.Client < 0 || st.Client > 2 {
+				t.Fatalf("corpus step %d is malformed", c)
+			}
+			gq, sc, tr, ci, cli, qid = &vC06Q{raw: b}, st.script(), st.Tr, st.Cfg, st.Client, st.Qid
+		} else {
+			gq = vC06GenQuery(r)
+			sc = vC06GenScript(r)
+			tr = []int{vC06UDP, vC06UDP, vC06UDP, vC06UDP, vC06TCP, vC06TCP, vC06TCP, vC06DOH, vC06DOH, vC06DOQ}[r.Intn(10)]
+			ci = r.Intn(4)
+			cli = []int{0, 0, 0, 1, 2}[r.Intn(5)]
+			qid = uint16(r.Intn(65536))
+			if r.Intn(120) == 0 && len(gq.raw) > 12 {
+				gq.raw = gq.raw[:1+r.Intn(11)] // shorter than a header: wire.ParseHeader refuses it
+			}
+			if tr == vC06UDP && r.Intn(3) == 0 {
+				tune, tuneOff = true, r.Intn(3)-1
+			}
+		}
+		client := clients[cli]
 		raw := gq.raw
 		if tr == vC06DOQ && len(raw) >= 2 {
 			raw[0], raw[1] = 0, 0 // RFC 9250: clients send ID 0
@@ -1148,9 +1270,9 @@ func TestVerifC06Server(t *testing.T) {
 		}
 
 		// boundary tuning of the filler on UDP: aim the shaped length at limit-1 / limit / limit+1
-		if tr == vC06UDP && bodyOK && sc.write && r.Intn(3) == 0 {
+		if tune && bodyOK && sc.write {
 			limit := vC06Limit(body)
-			target := limit + r.Intn(3) - 1
+			target := limit + tuneOff
 			if sc.fill == 0 {
 				sc.fill = 10
 			}
@@ -1168,6 +1290,7 @@ func TestVerifC06Server(t *testing.T) {
 				sc.fill = nf
 			}
 		}
+		step := vC06MkStep(tr, ci, cli, qid, false, raw, sc)
 
 		tab := vC06NewTab()
 		bodyCoq := "None"
@@ -1293,6 +1416,19 @@ func TestVerifC06Server(t *testing.T) {
 		case called && foreign && gq.hasOpt && obs != nil:
 			k += "-foreignopt"
 		}
+		if (tr == vC06UDP || tr == vC06TCP) && len(raw) < 12 {
+			k += "-short"
+		}
+		if fromCorpus {
+			k = "corpus-" + k
+		}
+		if coq != "" {
+			pkt := []byte(nil)
+			if tr == vC06UDP || tr == vC06TCP {
+				pkt = raw[:min(12, len(raw))]
+			}
+			coq = fmt.Sprintf("CaseBytes %s %s (%s)", vC06Octets(pkt), vC06Octets(vC06OptTail(obs, reply)), coq)
+		}
 		fkey := ""
 		relax := 0
 		if sc.optMode == 4 {
@@ -1303,8 +1439,9 @@ func TestVerifC06Server(t *testing.T) {
 		rec := map[string]any{
 			"k": k, "coq": coq, "nontrivial": nontrivial,
 			"desc": map[string]any{"transport": vC06TrName[tr], "cfg": ci, "client": client.String(), "query_hex": hex.EncodeToString(raw),
-				"downstream": dn, "reply_hex": hex.EncodeToString(reply), "clen_oracle": clen},
+				"downstream": dn, "reply_hex": hex.EncodeToString(reply), "clen_oracle": clen, "step": step, "prev_step": prev},
 		}
+		prev = step
 		if goFail == "" && tab.bad != "" {
 			goFail = "driver cannot abstract a record: " + tab.bad
 		}
